@@ -77,4 +77,70 @@ theorem softOutput_perm (numClasses : Nat) (w : Rat → Rat) {a b : List (Rat ×
   intro c _
   rw [foldl_add_perm w c h]
 
+/-! ## `calculateCuttingDimension` -/
+
+theorem foldl_max_spec (f : Nat → Rat) : ∀ (xs : List Nat) (m : Rat),
+    m ≤ xs.foldl (fun m i => if m < f i then f i else m) m ∧
+    ∀ i ∈ xs, f i ≤ xs.foldl (fun m i => if m < f i then f i else m) m
+  | [], m => ⟨Rat.le_refl, by simp⟩
+  | x :: xs, m => by
+    simp only [List.foldl_cons]
+    obtain ⟨h1, h2⟩ := foldl_max_spec f xs (if m < f x then f x else m)
+    refine ⟨?_, ?_⟩
+    · split at h1 <;> grind
+    · intro i hi
+      rcases List.mem_cons.mp hi with rfl | hi
+      · split at h1 <;> grind
+      · exact h2 i hi
+
+theorem foldl_min_spec (f : Nat → Rat) : ∀ (xs : List Nat) (m : Rat),
+    xs.foldl (fun m i => if f i < m then f i else m) m ≤ m ∧
+    ∀ i ∈ xs, xs.foldl (fun m i => if f i < m then f i else m) m ≤ f i
+  | [], m => ⟨Rat.le_refl, by simp⟩
+  | x :: xs, m => by
+    simp only [List.foldl_cons]
+    obtain ⟨h1, h2⟩ := foldl_min_spec f xs (if f x < m then f x else m)
+    refine ⟨?_, ?_⟩
+    · split at h1 <;> grind
+    · intro i hi
+      rcases List.mem_cons.mp hi with rfl | hi
+      · split at h1 <;> grind
+      · exact h2 i hi
+
+theorem le_maxOver (f : Nat → Rat) (idx : List Nat) (i : Nat) (h : i ∈ idx) : f i ≤ maxOver f idx := by
+  cases idx with
+  | nil => simp at h
+  | cons x xs =>
+    simp only [maxOver]
+    rcases List.mem_cons.mp h with rfl | h
+    · exact (foldl_max_spec f xs _).1
+    · exact (foldl_max_spec f xs _).2 i h
+
+theorem minOver_le (f : Nat → Rat) (idx : List Nat) (i : Nat) (h : i ∈ idx) : minOver f idx ≤ f i := by
+  cases idx with
+  | nil => simp at h
+  | cons x xs =>
+    simp only [minOver]
+    rcases List.mem_cons.mp h with rfl | h
+    · exact (foldl_min_spec f xs _).1
+    · exact (foldl_min_spec f xs _).2 i h
+
+/-- the fold of `calcCutDim`: the second component dominates its start value and the extent of every visited dimension -/
+theorem cutFold_spec (ext : Nat → Rat) : ∀ (ds : List Nat) (acc : Nat × Rat),
+    acc.2 ≤ (ds.foldl (fun (acc : Nat × Rat) d => if acc.2 < ext d then (d, ext d) else acc) acc).2 ∧
+    (∀ d ∈ ds, ext d ≤ (ds.foldl (fun (acc : Nat × Rat) d => if acc.2 < ext d then (d, ext d) else acc) acc).2) ∧
+    ((ds.foldl (fun (acc : Nat × Rat) d => if acc.2 < ext d then (d, ext d) else acc) acc).1 = acc.1 ∨
+     (ds.foldl (fun (acc : Nat × Rat) d => if acc.2 < ext d then (d, ext d) else acc) acc).1 ∈ ds)
+  | [], acc => ⟨Rat.le_refl, by simp, Or.inl rfl⟩
+  | x :: xs, acc => by
+    simp only [List.foldl_cons]
+    obtain ⟨h1, h2, h3⟩ := cutFold_spec ext xs (if acc.2 < ext x then (x, ext x) else acc)
+    refine ⟨?_, ?_, ?_⟩
+    · split at h1 <;> grind
+    · intro d hd
+      rcases List.mem_cons.mp hd with rfl | hd
+      · split at h1 <;> grind
+      · exact h2 d hd
+    · split at h3 <;> grind
+
 end SharkVerif.NN
